@@ -1776,10 +1776,20 @@ func (r *run) randomExec() {
 	}
 }
 
+// pairGroup: a token group for the erc20 conversions: the five of bridgex or the styled externally-owned one
+func (r *run) pairGroup() int {
+	if g := r.rng.Intn(6); g < 5 {
+		return g
+	}
+	return styledGroup
+}
+
 func (r *run) randomOp() {
 	rng := r.rng
 	u := rng.Intn(bx.NUsers)
-	switch k := rng.Intn(108); {
+	switch k := rng.Intn(113); {
+	case k >= 108:
+		r.randomStyled()
 	case k >= 100:
 		r.randomIbc()
 	case k < 18:
@@ -1866,10 +1876,10 @@ func (r *run) randomOp() {
 			r.randomInbound()
 		}
 	case k < 93:
-		g := rng.Intn(5)
+		g := r.pairGroup()
 		r.ccoin(g, u, rng.Intn(bx.NUsers), r.amount(r.baseBal(u, g)))
 	case k < 97:
-		g := rng.Intn(5)
+		g := r.pairGroup()
 		r.cerc(g, u, rng.Intn(bx.NUsers), r.amount(r.ercBal(u, g)))
 	default:
 		dens := []int{-1, 0, 1, 2}
@@ -1902,7 +1912,7 @@ func TestC04(t *testing.T) {
 	seed := hx.Seed()
 	rng := rand.New(rand.NewSource(seed))
 	out := hx.NewOut()
-	defer out.Close("correspondence: full ledger + in-flight records after every op (messages, claim handlers, precompile calls) on 3 users x 3 chains x 6 token groups (one with an IBC voucher alias on a real open channel); monitors: conservation, stated per-holder deltas, withdrawability, ERC-20 books. non-trivial = distinct (op, outcome class)")
+	defer out.Close("correspondence: full ledger + in-flight records after every op (messages, claim handlers, precompile calls) on 3 users x 3 chains x 7 token groups (one with an IBC voucher alias on a real open channel, one externally-owned token that signals failure by revert / false / nothing); monitors: conservation, stated per-holder deltas, withdrawability, ERC-20 books. non-trivial = distinct (op, outcome class)")
 
 	nSeq := hx.N(30, 110) // thorough: 110 sequences x 150 ops (was 150: 28 min on a loaded machine, above the 20-min target)
 	nOps := hx.N(60, 150)
@@ -1915,6 +1925,8 @@ func TestC04(t *testing.T) {
 		s := hx.NewSuite(t, 1)
 		w := bx.NewWorld(s)
 		ibc := addIbcGroup(w)
+		addStyledGroup(w, seq%3) // group 6: externally-owned token whose failure signal changes from sequence to sequence
+		out.Count("styled-token:" + failStyles[seq%3])
 		payer := helpers.NewSigner(helpers.NewEthPrivKey())
 		s.MintToken(payer.AccAddress(), sdk.NewCoin(fxtypes.DefaultDenom, sdkmath.NewInt(1e18).MulRaw(1e9)))
 		r := &run{payer: payer, w: w, out: out, rng: rng, ibc: ibc, initial: w.Held(), deposited: map[int]*big.Int{}, withdrawn: map[int]*big.Int{}, extLast: map[[2]int]int{}, extSupply: map[[2]int]*big.Int{}}
@@ -1933,10 +1945,13 @@ func TestC04(t *testing.T) {
 		if seq == 0 {
 			r.scripted()
 			r.scriptedIbc()
+			r.styleScenario()
 		} else if seq%2 == 1 {
 			r.batchScenario()
 		} else if seq%4 == 2 {
 			r.thirdPartyScenario()
+		} else {
+			r.styleScenario()
 		}
 		for i := 0; i < nOps; i++ {
 			r.randomOp()
